@@ -1113,7 +1113,11 @@ SMALL_STACKS = [[], [("I",)], [("I",), ("I",)], [("I",), ("I",), ("I",)], [("S",
                 [("I",), ("S", "Set-Cookie", "k=v")], [("S", "X-New", "1"), ("I",), ("I",)]]
 SMALL_STATUS = ["200 OK", "299 Unknown Status Code", "599", "404 Custom Phrase", "abc"]
 SMALL_HEADERS = [[], [("Content-Type", "text/plain")], [("Set-Cookie", "a=1; path=/"), ("Set-Cookie", "b=2; path=/")],
-                 [("X-A", "1"), ("b", "3"), ("x-a", "2"), ("X-a", "1, 2")]]
+                 [("X-A", "1"), ("b", "3"), ("x-a", "2"), ("X-a", "1, 2")],
+                 # header bytes that happen to be valid multi-byte UTF-8 (an application that sends UTF-8, or the
+                 # text.encode("utf-8").decode("latin-1") idiom), next to plain Latin-1 ones
+                 [("Content-Disposition", "attachment; filename=r\xc3\xa9sum\xc3\xa9.pdf"), ("Location", "/caf\xc3\xa9"),
+                  ("X-Town", "K\xf8benhavn"), ("X-Jp", "\xe6\x97\xa5\xe6\x9c\xac")]]
 SMALL_CHUNKS = [[], [b""], [b"ab"], [b"a", b"", b"bc"]]
 
 
@@ -1164,6 +1168,7 @@ def random_name(rng):
 
 def random_value(rng):
     return rng.choice(["1", "a=1; path=/", "b=2", "text/plain; charset=utf-8", "a, b", "", " ", "\xe9\xff", "gzip",
+                       "r\xc3\xa9sum\xc3\xa9", "\xe2\x82\xac 5", "\xf0\x9f\x98\x80",
                        "Mon, 01 Jan 2024 00:00:00 GMT", "".join(rng.choice("ab,; =\"'\t") for _ in range(rng.randrange(1, 6)))])
 
 
